@@ -36,6 +36,7 @@ import Proofs.FitPayload
 import Proofs.FitAround
 import Proofs.FitTail
 import Proofs.InsertAtValid
+import Proofs.DeleteFlat
 import Proofs.FitOpen
 import Proofs.FitNoRaise
 import Proofs.JoinSuccess
@@ -2403,5 +2404,123 @@ theorem replace_valid_of_inv_of_norm (S : Schema) (hdet : detB S = true) (hfill 
   simp only [Step.sliceOf, Option.some.injEq] at hs2
   subst hs2
   exact hsn _ _ _ _ _ _ _ rfl
+
+/-! ## The emitted step applies (first sentence of C11): deletions that fit trivially
+
+`delete_total_valid` leaves a refusal branch (`failed` / `valueError`) for the `apply` of the emitted step.  This section
+closes it for the **flat case**: `from` and `to` have the same parent and that parent's
+`can_replace(index(from), index(to))` approves, so `replace_step` answers `ReplaceStep(from, to, Slice.empty)` without
+building a Fitter (`fits_trivially`).  Either end may lie strictly inside a text child.  Hypotheses beyond those of
+`delete_total_valid`, both decidable:
+* `FromDom.textStableB S` — reading a text child does not change what the content automaton accepts next.  It is needed:
+  `can_replace(i, j)` runs the automaton over `children[:i] ++ children[j:]`, where `children[i]` is the text child `from`
+  lies in, but the replace keeps the first half of that text child: `children[:i] ++ [text] ++ children[j:]`.  With content
+  `(text a)?` and children `[text "xy", a]`, deleting `[1, 3)` fits trivially (`can_replace(0, 2)` accepts the empty
+  content) and `ReplaceStep(1, 3).apply` fails (`[text "x"]` is rejected): `Transform.delete` raises.  Same in the code.
+* `fnorm doc.kids` (no empty text nodes, no adjacent text nodes with equal marks: what `Fragment.from_array` /
+  `Node.from_json` build) and `pairAligned` for both ends (Python cannot cut a `str` inside a surrogate pair).
+
+WHAT IS MISSING for the general `delete_applies` (the Fitter's answer `ReplaceStep(f, t', ⟨placed, depth(from), d⟩)` or the
+replace-around "move" form): the success of `replace_outer` at the joined levels.  At each joined depth `i` the replace
+calls `close(node_i, left_i ++ inner_i ++ right_i)` with `left_i` the children of the document's ancestor of `from`
+before the path, `inner_i` the closed deeper level plus the fillers `close_frontier_node` added, `right_i` the children
+of the ancestor of `t'` behind the path.  Needed and not yet proved: (1) a description of `placed` as this chain
+(`PureV`, Proofs/FitValid.lean, gives validity of each level but not *which* children it has); (2) from `Coh`
+(Proofs/FitCoherent.lean) at the end of `close`: `frontier[i].match` is the state after `left_i ++ inner_i`, and
+`findCloseLevel` / `closeFit_valid` give that `right_i` is accepted from it — i.e. `checkContent` of the joined node;
+(3) `joinable`: the types on both spines are the document's own (`fitInit`, `reopen`), `compatible_content` is reflexive
+(`compatibleContent_self`).  `replaceKids_merge_open` (Proofs/MergeOpen.lean) turns (1)–(3) into success of the replace. -/
+
+/-- the position does not fall between the two halves of a surrogate pair (as `C12.pairAligned`) -/
+def pairAligned (doc : Node) (pos : Nat) : Bool :=
+  match doc.resolve pos with
+  | some r => r.pairOk
+  | none => true
+
+/-- **`trivialFit_delete_applies`** — on a valid document in normal form, a deletion request that `fits_trivially`
+    approves applies: `ReplaceStep(f, t, Slice.empty).apply(doc)` succeeds -/
+theorem trivialFit_delete_applies (S : Schema) (hst : PM.FromDom.textStableB S = true) (doc : Node) (f t : Nat)
+    (hv : C01.Valid S doc) (hdoc : C01.IsElem doc) (hn : fnorm doc.kids = true) (hft : f ≤ t)
+    (hpf : pairAligned doc f = true) (hpt : pairAligned doc t = true)
+    (htr : fitsTriviallyO S doc f t Slice.empty = some true) :
+    ∃ doc', S.apply (.replace f t Slice.empty false) doc = .ok doc' := by
+  cases doc with
+  | text s m => simp [C01.IsElem, Node.isLeaf] at hdoc
+  | leaf ty a m => simp [C01.IsElem, Node.isLeaf] at hdoc
+  | elem ty0 a0 m0 K =>
+    unfold fitsTriviallyO at htr
+    split at htr
+    · rename_i rf rt hf ht
+      have hpf' : rf.pairOk = true := by simpa [pairAligned, hf] using hpf
+      have hpt' : rt.pairOk = true := by simpa [pairAligned, ht] using hpt
+      exact trivial_delete_applies S (PM.FromDom.textStable_of_B S hst) ty0 a0 m0 K f t rf rt hf ht hv hn hft
+        hpf' hpt' htr
+    · simp at htr
+
+/-- **`delete_applies_flat`** — the flat case of `delete_applies`: when the request fits trivially, the step
+    `replace_step` emits for the empty slice is `ReplaceStep(f, t, Slice.empty)` and its `apply` succeeds -/
+theorem delete_applies_flat (S : Schema) (hst : PM.FromDom.textStableB S = true) (doc : Node) (f t : Nat)
+    (hv : C01.Valid S doc) (hdoc : C01.IsElem doc) (hn : fnorm doc.kids = true) (hft : f ≤ t)
+    (hpf : pairAligned doc f = true) (hpt : pairAligned doc t = true)
+    (htr : fitsTriviallyO S doc f t Slice.empty = some true) (st : Step)
+    (h : replaceStep S doc f t Slice.empty = .ok (some st)) :
+    st = .replace f t Slice.empty false ∧ ∃ doc', S.apply st doc = .ok doc' := by
+  have hne : ¬ (f = t ∧ Slice.empty.size = 0) := by
+    intro hc
+    unfold replaceStep at h
+    rw [if_pos (by simp [hc.1, hc.2])] at h
+    simp [pure, Except.pure] at h
+  have h' := replaceStep_trivial S doc f t Slice.empty hne htr
+  rw [h'] at h
+  have e : st = .replace f t Slice.empty false := by
+    simp only [Except.ok.injEq, Option.some.injEq] at h
+    exact h.symm
+  subst e
+  exact ⟨rfl, trivialFit_delete_applies S hst doc f t hv hdoc hn hft hpf hpt htr⟩
+
+/-- **`delete_never_raises_flat`** — `Transform.delete(f, t)` as a whole in the flat case: `replace_step` returns
+    `None` (`f = t`) or the step `ReplaceStep(f, t, Slice.empty)`, and that step applies: the operation returns a valid
+    document with exactly the text inside `[f, t)` removed and everything else kept.  No refusal branch, no hypothesis
+    about the step. -/
+theorem delete_never_raises_flat (S : Schema) (hdet : detB S = true) (hfill : S.fillersOKB = true)
+    (hleaf : PM.FromDom.leafOkB S = true) (hst : PM.FromDom.textStableB S = true) (doc : Node) (f t : Nat)
+    (hv : C01.Valid S doc) (hdoc : C01.IsElem doc) (hn : fnorm doc.kids = true) (hattrs : S.nodeAttrsOK doc = true)
+    (hft : f ≤ t) (hpf : pairAligned doc f = true) (hpt : pairAligned doc t = true)
+    (htr : fitsTriviallyO S doc f t Slice.empty = some true) :
+    replaceStep S doc f t Slice.empty = .ok none ∨
+    ∃ doc', replaceStep S doc f t Slice.empty = .ok (some (.replace f t Slice.empty false)) ∧
+      S.apply (.replace f t Slice.empty false) doc = .ok doc' ∧ C01.Valid S doc' ∧
+      Kept (ftoks doc.kids) (ftoks doc'.kids) f t [] ∧
+      textUnits (ftoks doc'.kids) = textUnits ((ftoks doc.kids).take f) ++ textUnits ((ftoks doc.kids).drop t) := by
+  by_cases hne : f = t ∧ Slice.empty.size = 0
+  · left
+    unfold replaceStep
+    rw [if_pos (by simp [hne.1, hne.2])]
+    rfl
+  · right
+    have h' := replaceStep_trivial S doc f t Slice.empty hne htr
+    obtain ⟨doc', ha⟩ := trivialFit_delete_applies S hst doc f t hv hdoc hn hft hpf hpt htr
+    exact ⟨doc', h', ha, delete_valid S hdet hfill hleaf doc doc' f t hv hattrs hft _ h' ha⟩
+
+/-- non-vacuity: `doc(p("abcd"))` with `doc: "paragraph+"`, `paragraph: "text*"`; deleting `[2, 4)` (both ends
+    strictly inside the text child) fits trivially and all hypotheses hold (so the emitted step applies, by the theorem; `Step.apply` itself does not
+    reduce in the kernel) -/
+example :
+    let nt (name : String) (isText inl : Bool) (dfa : Array DfaState) : NodeType :=
+      { name := name, isText := isText, isInline := isText, isLeaf := isText, isAtom := isText,
+        inlineContent := inl, isolating := false, defining := false, code := false,
+        dfa := dfa, markSet := none, attrs := [] }
+    let S : Schema := { nodes := #[nt "doc" false false #[⟨false, [(1, 1)]⟩, ⟨true, [(1, 1)]⟩],
+                                   nt "paragraph" false true #[⟨true, [(2, 0)]⟩],
+                                   nt "text" true false #[⟨true, []⟩]],
+                        marks := #[], top := 0, textTy := 2 }
+    let doc := Node.elem 0 [] [] [.elem 1 [] [] [.text [97, 98, 99, 100] []]]
+    PM.FromDom.textStableB S = true ∧ S.checkNode doc = true ∧ fnorm doc.kids = true ∧
+    pairAligned doc 2 = true ∧ pairAligned doc 4 = true ∧
+    fitsTriviallyO S doc 2 4 Slice.empty = some true ∧
+    (match replaceStep S doc 2 4 Slice.empty with
+     | .ok (some (.replace 2 4 sl _)) => sl == Slice.empty
+     | _ => false) = true := by
+  decide +kernel
 
 end PM.C11
